@@ -260,13 +260,15 @@ PROPS["C12"] = {
     "level_note": "the app (harness/cmdlab/src/fuzzapp.rs) is total, so every panic is the bridge's or the serde stack's; ids are always those of outstanding requests (documented precondition); a one-shot request that received a malformed response is retired on both bridges ('affects at most the one request it was addressed to')",
     "technique": "fault injection at every history position + twin-bridge differential + counting allocator + panic trap",
     "rule": "history of 3-14 valid steps; before each step the full mutation set against one fresh event encoding and against a fresh response encoding for each outstanding request (all mutations for streams, one for a one-shot); non-trivial = malformed input that was rejected with app state verified unchanged; distinct = hash of (bytes, mutation kind, history)",
-    "lanes": [{"name": "bridgefuzz", "pkg": "cmdlab", "bin": "bridgefuzz", "workers": {"quick": 4, "thorough": 16}, "timeout": {"quick": 900, "thorough": 5400}}],
-    "floors": {"quick": {"evaluations": 200000, "distinct_nontrivial": 80000, "malformed_events_offered": 80000, "malformed_responses_offered": 80000, "valid_steps": 1000},
+    "lanes": [{"name": "bridgefuzz", "pkg": "cmdlab", "bin": "bridgefuzz", "workers": {"quick": 4, "thorough": 16}, "timeout": {"quick": 900, "thorough": 5400}},
+              caplab("capfuzz", 4, 16)],
+    "floors": {"quick": {"evaluations": 200000, "distinct_nontrivial": 80000, "malformed_events_offered": 80000, "malformed_responses_offered": 80000, "valid_steps": 1000, "responses_offered": 15000},
                "thorough": {"evaluations": 20000000, "distinct_nontrivial": 390000}},
     "must_cover": {"mutations": ["random-bytes", "truncated", "extended", "bit-flip", "length-field", "variant-index", "json-deep-nesting", "json-wrong-type", "json-huge-number", "json-unbalanced"],
                    "response_targets": ["one-shot", "stream"], "wires": ["bincode", "json"]},
-    "assumptions": ["semantically wrong but well-formed responses (a response kind that does not match the operation) are capability-crate developer errors, not this property"],
+    "assumptions": ["the bridgefuzz lanes use a total app with its own operation types, so every panic there is the bridge's or the serde stack's; responses that are well-formed but wrong for the capability crates (another kind, another timer id, numbers out of range) are offered by the capfuzz lane, and the panics they cause in crux_kv / crux_time / the http-types fork are listed known findings, each keyed on its panic site and message"],
 }
+PROPS["C12"]["level_text"] += " Capability side (capfuzz lane): responses to outstanding http / kv / time / platform requests of the capability crates, through both bridges and both APIs - valid encodings with boundary numbers written over a field (0, 1, 1e9 - 1, 1e9, 2^32, 2^63, u64::MAX ...), truncated, extended, bit-flipped, random - must return without panicking; afterwards a bystander request that was outstanding during the attack is answered and its outcome arrives, and a new event still produces its request (a panic under the registry lock would poison it). The panics found this way in the capability crates are listed known findings; any other panic site or message is a violation."
 
 PROPS["C13"] = {
     "level": "exploration",
